@@ -22,7 +22,11 @@ Definition is_end (c : cfg) (e : ev) : bool :=
 (** the process comes to an end somewhere in the script *)
 Definition process_ends (c : cfg) (script : list ev) : bool := existsb (is_end c) script.
 
-(** readers eventually get EOF: nobody else keeps the pipes open *)
+(** readers eventually get EOF: nobody else keeps the pipes open.
+    NOTE this condition sits INSIDE [spec_ok]: the termination claim is only made
+    for runs whose readers reach EOF.  What it leaves out is a genuine defect of the
+    code -- a descendant holding a pipe makes the untimed joins of [_finish] block
+    although the command has ended (finding F-C14b, registered for C08 as well). *)
 Definition fair (c : cfg) : bool := negb (c_hold_out c) && negb (c_hold_err c).
 
 Definition worker_exists (c : cfg) (w : who) : bool :=
